@@ -254,9 +254,9 @@ def own_resolver_input(repo, tier="quick"):
 # ORD.repetition-state (C05): every repetition of a multiplied branch is computed from the same state
 # ---------------------------------------------------------------------------------------------------------------------
 
-def _repetition_loops(fi):
-    """(repetition loop, recipe loop) pairs of read_cgsmiles: `for _ in range(.., int(<multiplier>) - 1)` directly around a loop
-    that calls _expand_branch."""
+def _repetition_loops(fi, repo=None):
+    """(repetition loop, recipe loop) pairs of read_cgsmiles: a `for _ in range(...)` loop directly around a loop that calls
+    _expand_branch (the bounds of the range are the business of TRIP.multiplier, not of the rules that use this)."""
     from .common import is_call, enclosing_loops
     fl, cfg = fi.flow, fi.cfg
     reps = []
@@ -266,12 +266,11 @@ def _repetition_loops(fi):
         c = is_call(fl.canon(n.ast.iter, n.id), "range")
         if not c or not c[0]:
             continue
-        hi = c[0][-1] if len(c[0]) <= 2 else c[0][1]
-        if hi[0] == "binop" and hi[1] == "-" and hi[3] == ("const", 1) and is_call(hi[2], "int"):
-            inner = [m for m in cfg.nodes if m.kind in ("for", "while") and m.id != n.id and m.id in cfg.loops.get(n.id, set()) and
-                     enclosing_loops(fi, m.id) and enclosing_loops(fi, m.id)[0].id == n.id]
-            if inner:
-                reps.append((n, inner[0]))
+        inner = [m for m in cfg.nodes if m.kind in ("for", "while") and m.id != n.id and m.id in cfg.loops.get(n.id, set()) and
+                 enclosing_loops(fi, m.id) and enclosing_loops(fi, m.id)[0].id == n.id]
+        inner = [m for m in inner if any(isinstance(x, ast.Call) and isinstance(x.func, ast.Name) and x.func.id == "_expand_branch" for x in ast.walk(m.ast))]
+        if inner:
+            reps.append((n, inner[0]))
     return reps
 
 
